@@ -299,6 +299,20 @@ def first_match_rule(rep, prog, cfg):
                   "Frame::fields_len does not count what Frame::fields() iterates (length and iteration may disagree after get())")
     else:
         rep.fail(rule + ".anchor", cfg + "/Frame::fields_len", F + "fields_len", "public anchor not found")
+    # has_binary() is the presence of the blob, whatever its content (a zero-length blob is a blob: binary() and take_binary()
+    # hand it out): sibling accessors must agree
+    bs = body_by_name(prog, F + "has_binary")
+    if len(bs) == 1:
+        names = set()
+        for fb in family(prog, bs[0]):
+            for bb, t in fb.calls():
+                names.update(n.rsplit("::", 1)[-1].split("::<")[0] for n in callee_names(t)[:1])
+        extra = sorted(names - {"is_some", "is_none", "as_ref", "as_deref", "binary", "deref"})
+        rep.check(("is_some" in names or "is_none" in names) and not extra, rule, cfg + "/has_binary = presence of the blob", bs[0].loc(bs[0].span),
+                  "Frame::has_binary looks at more than the presence of the blob (%s): it would disagree with binary() / take_binary(), which hand out "
+                  "an empty blob, and with is_empty()" % extra)
+    else:
+        rep.fail(rule + ".anchor", cfg + "/Frame::has_binary", F + "has_binary", "public anchor not found")
     bs = body_by_name(prog, F + "is_empty")
     if len(bs) == 1:
         names = set()
